@@ -275,11 +275,22 @@ def apply_filter_inplace(start: MNode, kept: set[str]) -> list[MNode]:
 # Canonical form (for digests / logs; symbolic, process independent)
 # ------------------------------------------------------------------------------
 def canon(node: MNode, sym):
-    """sym(node) -> symbolic (dkey, did_sym)."""
-    return tuple(
-        (c.uid, sym(c), c.kind, tuple(sorted((c.meta or {}).items())), canon(c, sym))
-        for c in node.children
-    )
+    """sym(node) -> symbolic (dkey, did_sym).  Iterative (chains of several hundred
+    levels must not exhaust the interpreter's recursion limit in the harness)."""
+    done: dict[int, tuple] = {}
+    stack = [(node, False)]
+    while stack:
+        n, ready = stack.pop()
+        if not ready:
+            stack.append((n, True))
+            for c in n.children:
+                stack.append((c, False))
+            continue
+        done[id(n)] = tuple(
+            (c.uid, sym(c), c.kind, tuple(sorted((c.meta or {}).items())), done.pop(id(c)))
+            for c in n.children
+        )
+    return done[id(node)]
 
 
 def shape(node: MNode, label):
